@@ -197,6 +197,19 @@ def strip_bonding_descriptors(fragment_string):
             current_order = None
         elif token in '] H . - = # $ : + -':
             smile += token
+        # the expansion operator: what stands in front of it (a node, or an
+        # anchor with its branch) occurs that many times in the graph, so the
+        # nodes and bonding descriptors that follow are counted from the last copy
+        elif token == '|':
+            smile += token
+            multiplier = ""
+            while smile_iter.peek() and smile_iter.peek().isdigit():
+                multiplier += next(smile_iter)
+            smile += multiplier
+            if multiplier and node_count > 0:
+                shift = (int(multiplier) - 1) * (node_count - prev_node)
+                node_count += shift
+                prev_node += shift
         # deal with ez isomers
         elif token in '/ \\':
             ez_isomer_atoms[node_count] = token
